@@ -26,7 +26,24 @@ class Executor(Exec):
             return self.evs(list(e.args) + [kwd.value for kwd in e.keywords], st2, got_args)
         return self.ev(e.func, st, got_f)
 
+    def opaque_call(self, name, st, k):
+        """A call the model does not look into: fresh result of the declared type, ghost bookkeeping."""
+        c = self.cur_contract
+        short = name.split(".")[-1]
+        rty = (getattr(c, "opaque_results", None) or {}).get(short, "opaque") if c else "opaque"
+        res, st = fresh_value(st, S.parse_type(rty), "op." + short)
+        g = dict(st.ghost)
+        cnt = g.get("count:" + short, z3.IntVal(0))
+        g["count:" + short] = cnt + 1
+        if isinstance(res, SPrim): g["last:" + short] = res.t
+        return k(res, st.but(ghost=g))
+
     def apply(self, f, args, kw, st, k, node=None):
+        if isinstance(f, SOpaqueObj):
+            return self.opaque_call(f.name, st, k)
+        oc = getattr(self.cur_contract, "opaque_calls", None) or []
+        if isinstance(f, SClosure) and f.name.split(".")[-1] in oc:
+            return self.opaque_call(f.name, st, k)
         if not isinstance(f, SClosure):
             raise Unsupported(f"call of {f}")
         if f.kind == "setattr":
@@ -421,6 +438,15 @@ class Executor(Exec):
         return self.ev(s.value, st, lambda v, st2: self.assign(s.target, v, st2, k))
 
     def ex_Assign(self, s, st, k):
+        if (len(s.targets) == 1 and isinstance(s.targets[0], ast.Tuple) and isinstance(s.value, ast.Tuple)
+                and len(s.targets[0].elts) == len(s.value.elts)):
+            # a, b = x, y  (all right-hand sides are evaluated first)
+            def all_vals(vals, st2):
+                def go(i, st3):
+                    if i == len(vals): return k(st3)
+                    return self.assign(s.targets[0].elts[i], vals[i], st3, lambda st4: go(i + 1, st4))
+                return go(0, st2)
+            return self.evs(s.value.elts, st, all_vals)
         def got(v, st2):
             def go(ts, st3):
                 if not ts: return k(st3)
